@@ -2,6 +2,7 @@ import PlumpyModel.Fault.Model
 import PlumpyModel.Fault.Proof0
 import PlumpyModel.Fault.Proof6
 import PlumpyModel.Fault.Proof7
+import PlumpyModel.Fault.Proof12
 /-!
 # C03 — a failure in user code ends the process EXCEPTED, never half-transitioned
 
@@ -244,17 +245,62 @@ theorem C03_pause_play_fault_never_disturbs (P : Prog) (nf : Nat) (plan : Plan) 
   · have := hb.main; rw [hm] at this; cases this
   · exact ⟨hi, hk.tr⟩
 
-/-- The clause "the stepping task returns normally" for hook faults, as one would like to state it: after a transition-hook fault has
-fired, finitely many wake-ups end `step_until_terminated()` normally.  It is FALSE of the model — and of the code:
-`C03_witness_stepper_blocked_after_exit_hook_fault` below.  On every case of the harness the clause is decided by the op-by-op
-correspondence (field `task=`) and the monitor.  What is proved instead: nothing propagates out of the faulty `transition_to`
-(`C03_transition_with_fault`), and for faults that are not lifecycle hooks the task's program counter is `done`
-(`PMF.L.C03_raising_step_excepted`).  (The pause / play hooks are rightly absent from the statement:
-`C03_witness_superseded_pause_action_escapes`.) -/
+/-- The clause "the stepping task returns normally" for hook faults in full: after a transition-hook fault has fired, finitely many
+wake-ups end `step_until_terminated()` normally.  Before the repairs e94edb5 / a130f23 it was false (F28, F30).  Now it is PROVED for
+ten of the twelve transition hooks (`C03_stepper_returns_after_hook_fault_partial`); for `on_terminated` / `on_close` (raising before
+`super()`) it is not: these two hooks also run in the failing path of `transition_to`, where a second failure propagates (the
+alternative `Bad` of the invariant `K`), and the linking invariant is proved only for runs in which that cannot happen.  Missing for
+the full statement: that `Bad` is absorbing for the twins (terminal states final, `fired` monotone), so that the hypothesis on the
+final configuration rules `Bad` out along the whole run.  No counterexample exists among all histories of length ≤ 7 over tick / pause
+/ play / kill / fail / resume / call_soon (failing) of two programs × 8 plans × every transition hook × occurrence ≤ 2 × before / after
+(exhaustive search on the compiled model), and on every case of the harness the clause is decided by the correspondence (`task=`). -/
 def C03_stepper_returns_after_hook_fault : Prop :=
   ∀ (P : Prog) (nf : Nat) (plan : Plan) (a : Arm) (evs : List Ev), mainHK a.hk = true → afterClose a = false →
     (runX P (initX nf plan (some a)) evs).fired = true → ¬ InternalError (runX P (initX nf plan (some a)) evs) →
     ∃ n, (runF P (runX P (initX nf plan (some a)) evs) (List.replicate n .tick)).l.c.pc = .done
+
+/-- **the stepping task returns normally after a hook fault** — for every program, plan, history and every fault in
+`on_exit_running/waiting`, `on_run/wait/finish/kill`, `on_running/waiting/finished/killed` (any occurrence, before or after
+`super()`): once the fault has fired, finitely many wake-ups of the stepping task end `step_until_terminated()` normally (its program
+counter is `done`), wherever the task was suspended when the fault fired — inside a step function, on the wait of a WAITING state
+(which the failed transition still completes, repair a130f23), on the pause future (released by `on_terminated`) — and whatever was
+pending or requested.  (`_partial`: `on_terminated` / `on_close` are missing, see `C03_stepper_returns_after_hook_fault`.) -/
+theorem C03_stepper_returns_after_hook_fault_partial (P : Prog) (nf : Nat) (plan : Plan) (a : Arm) (evs : List Ev)
+    (hm : mainHK a.hk = true) (hnb : NoTC a)
+    (hf : (runX P (initX nf plan (some a)) evs).fired = true) :
+    ∃ n, (runF P (runX P (initX nf plan (some a)) evs) (List.replicate n .tick)).l.c.pc = .done := by
+  have hac : afterClose a = false := by
+    unfold afterClose
+    cases h : a.after with
+    | false => rfl
+    | true =>
+      have h1 : a.hk ≠ .onTerminated := fun h => hnb (Or.inl h)
+      have h2 : a.hk ≠ .onClose := fun h => hnb (Or.inr h)
+      simp [h1, h2]
+  have hg := C03_hook_fault_ends_excepted P nf plan a evs hm hac hf (fun h => absurd h hnb)
+  rw [runX_armed] at hg hf ⊢
+  exact stepperF_returns_run hac hnb P nf plan evs (by rw [hg.1]; exact excepted_terminal _)
+
+/-- **the exception never escapes into the stepping task, and the task is never left blocked**: for the same ten hooks, in EVERY
+configuration of the run (fired or not): the stepping task has not crashed; if it is suspended on a waiting future, the current
+state owns that future or the future is completed; if it is suspended on a pause future, that is the current one or a released one,
+and on a terminated process it is released (the linking invariant `Inv10` of C02, for runs with a fault). -/
+theorem C03_hook_fault_never_reaches_the_stepping_task (P : Prog) (nf : Nat) (plan : Plan) (a : Arm) (evs : List Ev)
+    (hac : afterClose a = false) (hnb : NoTC a) :
+    Inv10 (runX P (initX nf plan (some a)) evs).l.c := by
+  rw [runX_armed]
+  exact (runF_jf hac hnb P _ evs (initX_jf a nf plan)).old
+
+/-- **`step_until_terminated()` returns, configuration level, every hook**: from ANY terminated configuration of the model with a
+fault in which the stepping task has not crashed and is not blocked on an unreleased future, finitely many wake-ups end it normally
+(on a terminated process a wake-up consults no hook and no listener: `tickStepperF_terminal_c`). -/
+theorem C03_stepper_returns_configuration (P : Prog) (x : FCfg) (ht : terminal x.l.c.st.label = true)
+    (hcr : ∀ e, x.l.c.pc ≠ .crashed e)
+    (hpz : ∀ pf pf', x.l.c.pc = .awaitPaused pf → x.l.c.paused = some pf' → x.l.c.pfs[pf']? = some true)
+    (hap : ∀ pf, x.l.c.pc = .awaitPaused pf → x.l.c.pfs[pf]? = some true)
+    (haw : ∀ wf, x.l.c.pc = .awaitWaiting wf → ∃ w, x.l.c.wfs[wf]? = some w ∧ w ≠ .pending) :
+    ∃ n, (runF P x (List.replicate n .tick)).l.c.pc = .done :=
+  stepperF_returns P x ht hcr hpz hap haw
 
 /-- **one transition with the armed fault, every scenario** (configuration level): from ANY configuration in which the invariant
 holds and the process is live — whatever is pending or requested, inside or outside a step —, for any target state and any
@@ -359,6 +405,13 @@ example :
     let l := runL (withStepFault procC03 2 1) (initL 0 []) [.tick, .tick, .resume (some 7), .tick]
     terminal l.c.st.label = false ∧ l.c.pc = .inUser ⟨0, .raise faultExc⟩ := by decide +kernel
 
+-- non-vacuity of `C03_stepper_returns_after_hook_fault_partial`: `fail()` on the WAITING process whose `on_exit_waiting` raises
+-- (F30) — the fault fires while the stepping task is suspended on the wait of the state being left
+example : mainHK .exitWaiting = true ∧ NoTC ⟨.exitWaiting, 0, false⟩ ∧
+    (runX procC03 (initX 0 [] (some ⟨.exitWaiting, 0, false⟩)) [.tick, .tick, .tick, .fail (.user 9)]).fired = true ∧
+    (runX procC03 (initX 0 [] (some ⟨.exitWaiting, 0, false⟩)) [.tick, .tick, .tick, .fail (.user 9)]).l.c.pc = .awaitWaiting 0 :=
+  ⟨rfl, by unfold NoTC; decide, by decide +kernel, by decide +kernel⟩
+
 /-- **finding F18 on whole runs (witness)**: `on_terminated` raising AFTER `super()` in the closing transition of the last step: the
 process is EXCEPTED with the fault while its future still holds the result of the FINISHED state it had entered — the two fault points
 that `C03_hook_fault_ends_excepted` excludes, and the conclusion does fail there. -/
@@ -367,58 +420,35 @@ theorem C03_witness_fault_after_close_run :
     afterClose ⟨.onTerminated, 0, true⟩ = true ∧ x.fired = true ∧ x.l.c.st = .excepted faultExc ∧ x.l.c.fut = .result ∧
     x.l.c.closed = true := by decide +kernel
 
-/-- **a fault in a pause hook that has nobody left to report to escapes into the stepping task (witness; NOT in the harness's
-enumeration, reproduced on the real code)**: a pause is pending when `run` returns; the pause action performs the step's transition;
-a listener of that transition (`on_process_running`) calls `kill()`, which supersedes — cancels — the pause action that is running;
-`on_pausing` then raises; `CancellableAction.run` finds its future cancelled and re-raises; the exception leaves `Process.step()`:
-the stepping task has crashed with the fault, the process is still RUNNING, and the `finally` cancelled the kill action too while
-`_killing` still points at it. -/
-theorem C03_witness_superseded_pause_action_escapes :
+/-- **a fault in the pause hook of a pause action that was superseded while it ran is logged, and the request that superseded it is
+served (finding F28, repaired by e94edb5; the run that used to crash the stepping task)**: a pause is pending when `run` returns; the
+pause action performs the step's transition; a listener of that transition (`on_process_running`) calls `kill()`, which supersedes —
+cancels — the pause action that is running; `on_pausing` then raises.  Nobody is left to report to: the step goes on, enacts the
+kill, the process ends KILLED with everything agreeing, the requester of the kill is told `True`, `_killing` is cleared and
+`step_until_terminated()` has returned. -/
+theorem C03_superseded_pause_action_fault_is_logged :
     let x := runX procC03 (initX 0 [(.running, 2, .kill)] (some ⟨.onPausing, 0, false⟩)) [.tick, .pause, .tick]
-    x.l.c.pc = .crashed faultExc ∧ x.l.c.st.label = .running ∧ x.l.c.actions.map (·.status) = [.cancelled, .cancelled] ∧
-    x.l.c.killing = some 1 := by decide +kernel
+    x.fired = true ∧ x.l.c.pc = .done ∧ x.l.c.st = .killed ∧ x.l.c.fut = .exc .killedErr ∧ x.l.c.closed = true ∧
+    x.l.c.actions.map (·.status) = [.cancelled, .done] ∧ x.l.c.killing = none ∧ x.l.c.pausing = none := by decide +kernel
 
-/-- **`call_with_super_check` is not exception-safe (witness, reproduced on the real code)**: `play()` → `on_playing` → the
-`on_process_played` listener calls `kill()` → the transition's `on_exit_running` raises BEFORE calling `super()`, which leaves
-`_called` one too high; the transition handles the fault properly (EXCEPTED with it), but `on_playing`, whose base implementation
-completed, then fails its own final assertion: the caller of `play()` gets an `AssertionError`. -/
-theorem C03_witness_super_check_not_exception_safe :
+/-- **a hook that raises before calling `super()` no longer disturbs the hook call around it (finding F29, repaired by 6c8055d;
+the run in which `play()` used to raise an `AssertionError`)**: `play()` → `on_playing` → the `on_process_played` listener calls
+`kill()` → the transition's `on_exit_running` raises before calling `super()`: the transition handles the fault (EXCEPTED with it),
+the call counter is back where it was, and `play()` returns `True`. -/
+theorem C03_failing_hook_leaves_enclosing_hook_alone :
     let x := runX procC03 (initX 0 [(.played, 1, .kill)] (some ⟨.exitRunning, 1, false⟩)) [.tick, .pause, .tick]
-    (stepF procC03 x .play).2 = .raised .assertion ∧ (stepF procC03 x .play).1.l.c.st = .excepted faultExc ∧
-    (stepF procC03 x .play).1.l.c.fut = .exc faultExc := by decide +kernel
+    (stepF procC03 x .play).2 = .bool true ∧ (stepF procC03 x .play).1.l.c.st = .excepted faultExc ∧
+    (stepF procC03 x .play).1.l.c.fut = .exc faultExc ∧ (stepF procC03 x .play).1.called = x.called := by decide +kernel
 
-/-- **`fail()` on a WAITING process whose `on_exit_waiting` raises leaves the stepping task blocked for ever (witness; NOT in the
-harness's enumeration, reproduced on the real code)**: the failed transition is redone with the exit phase bypassed
-(`_transition_failing`), so `Waiting.exit()` — which completes the wait the stepping task is suspended on — never runs: the process is
-EXCEPTED with the fault, closed, its future raising it, but `step_until_terminated()` never returns.  Hence
-`C03_stepper_returns_after_hook_fault` is false. -/
-theorem C03_witness_stepper_blocked_after_exit_hook_fault : ¬ C03_stepper_returns_after_hook_fault := by
-  intro h
-  have hx : (runX procC03 (initX 0 [] (some ⟨.exitWaiting, 0, false⟩)) [.tick, .tick, .tick, .fail (.user 9)]).fired = true ∧
-      (runX procC03 (initX 0 [] (some ⟨.exitWaiting, 0, false⟩)) [.tick, .tick, .tick, .fail (.user 9)]).l.c.st = .excepted faultExc ∧
-      (runX procC03 (initX 0 [] (some ⟨.exitWaiting, 0, false⟩)) [.tick, .tick, .tick, .fail (.user 9)]).l.c.pc = .awaitWaiting 0 ∧
-      (runX procC03 (initX 0 [] (some ⟨.exitWaiting, 0, false⟩)) [.tick, .tick, .tick, .fail (.user 9)]).l.c.wfs[0]? = some .pending := by
-    decide +kernel
-  obtain ⟨h1, h2, h3, h4⟩ := hx
-  have hni : ¬ InternalError (runX procC03 (initX 0 [] (some ⟨.exitWaiting, 0, false⟩)) [.tick, .tick, .tick, .fail (.user 9)]) := by
-    rintro ⟨e, he, hs⟩
-    rw [h2] at hs; cases hs
-    exact faultExc_not_internal he
-  obtain ⟨n, hn⟩ := h procC03 0 [] ⟨.exitWaiting, 0, false⟩ [.tick, .tick, .tick, .fail (.user 9)] rfl rfl h1 hni
-  generalize runX procC03 (initX 0 [] (some ⟨.exitWaiting, 0, false⟩)) [.tick, .tick, .tick, .fail (.user 9)] = x at hn h3 h4
-  -- a wake-up of a task that awaits a pending waiting future changes nothing
-  have hstay : ∀ n, runF procC03 x (List.replicate n .tick) = x := by
-    intro n
-    induction n with
-    | zero => rfl
-    | succ n ih =>
-      have h1 : (stepF procC03 x .tick).1 = x := by
-        show tickStepperF _ procC03 x = x
-        unfold tickStepperF; rw [h3]; simp only [h4]
-      show runF procC03 (stepF procC03 x .tick).1 (List.replicate n .tick) = x
-      rw [h1]; exact ih
-  rw [hstay n, h3] at hn
-  cases hn
+/-- **`fail()` on a WAITING process whose `on_exit_waiting` raises (finding F30, repaired by a130f23; the run that used to leave the
+stepping task blocked for ever)**: the failed transition is redone with the EXITING callbacks bypassed, but the state — still
+entered — is exited: `Waiting.exit()` completes the wait the stepping task is suspended on; the process is EXCEPTED with the fault,
+closed, its future raising it, and the next wake-up of the stepping task ends `step_until_terminated()`. -/
+theorem C03_failed_exit_hook_still_exits_the_state :
+    let x := runX procC03 (initX 0 [] (some ⟨.exitWaiting, 0, false⟩)) [.tick, .tick, .tick, .fail (.user 9)]
+    x.fired = true ∧ x.l.c.st = .excepted faultExc ∧ x.l.c.fut = .exc faultExc ∧ x.l.c.closed = true ∧
+    x.l.c.pc = .awaitWaiting 0 ∧ x.l.c.wfs[0]? = some (.result none) ∧ (runF procC03 x [.tick]).l.c.pc = .done := by
+  decide +kernel
 
 end FP
 end PMF
